@@ -5,7 +5,8 @@
     universally quantified function arguments of every theorem. *)
 From Teleport Require Import Base.Bytes Base.Outcome Model.Tendermint Model.TendermintCheck
   Proofs.TendermintStore Proofs.TendermintVerify Proofs.Tendermint Proofs.TendermintMonitor
-  Proofs.TendermintExample.
+  Proofs.TendermintExample Proofs.TendermintHistory Proofs.TendermintExample2 Proofs.TendermintKeys.
+From Teleport Require Base.Fmt Gen.KeysGen.
 Local Open Scope Z_scope.
 
 (** [wf_header]: the relayer-supplied numbers are in the range of their Go types
@@ -185,6 +186,27 @@ Theorem C07_prune_is_earliest_expired :
 Proof. exact prune_is_earliest_expired. Qed.
 Print Assumptions C07_prune_is_earliest_expired.
 
+(** the same without side conditions on a well-formed store (CreateClient + any
+    history, C07_store_wf_invariant): the pruned height is a genuine stored height,
+    expired, and no stored height is lower; and nothing is pruned while the
+    earliest stored state is within the trusting period *)
+Theorem C07_prune_is_earliest_expired_wf :
+  forall cs s now p,
+  sorted s -> wf_iter_keys s -> prune_height cs s now = Ok (Some p) ->
+  valid_height p /\
+  (exists c, get_cons s p = Ok c /\ c_time c + cs_trusting cs <= now) /\
+  sget (iter_key p) s <> None /\
+  forall h', valid_height h' -> sget (iter_key h') s <> None -> h_lte p h' = true.
+Proof. exact prune_is_earliest_expired_wf. Qed.
+Print Assumptions C07_prune_is_earliest_expired_wf.
+
+Theorem C07_prune_none_when_fresh :
+  forall cs s now k v h c,
+  first_with_prefix iter_prefix s = Some (k, v) -> height_from_iter_key k = Ok h -> get_cons s h = Ok c ->
+  c_time c + cs_trusting cs > now -> prune_height cs s now = Ok None.
+Proof. exact prune_none_when_fresh. Qed.
+Print Assumptions C07_prune_none_when_fresh.
+
 (** Over ALL update histories (any headers, any clocks, any order: forward,
     skipping, back-filling; failed messages rolled back): the latest height never
     decreases and no other field of the client state changes. *)
@@ -279,6 +301,123 @@ Theorem C07_monitor_sound_verify :
 Proof. exact mon_verify_sound. Qed.
 Print Assumptions C07_monitor_sound_verify.
 
+(** "trusted state AND HEADER are within the trusting period": an accepted header
+    is itself younger than the trusting period (its time lies after the trusted
+    state's time, which is) and not from beyond the clock drift. *)
+Theorem C07_header_within_trusting_period :
+  forall valset_hash header_hash verify_sig cs s hdr now r,
+  wf_header hdr ->
+  check_header_and_update_state valset_hash header_hash verify_sig cs s hdr now = Ok r ->
+  forall sh h, h_signed hdr = Some sh -> sh_header sh = Some h ->
+  hd_time h + cs_trusting cs > now /\ hd_time h < now + cs_drift cs.
+Proof. exact header_within_trusting_period. Qed.
+Print Assumptions C07_header_within_trusting_period.
+
+(** * Whole histories with a ghost log of the accepted writes
+
+    [run_log] is [run_updates] (failed messages rolled back) carrying the list of
+    accepted writes, newest first; the first event is the initial consensus state
+    of CreateClient.  For EVERY history (any headers, clocks, orders): *)
+
+(** the ghost log does not influence the store *)
+Theorem C07_run_log_is_run_updates :
+  forall valset_hash header_hash verify_sig ops s log,
+  fst (run_log valset_hash header_hash verify_sig s log ops) = run_updates valset_hash header_hash verify_sig s ops.
+Proof. intros. apply run_log_fst. Qed.
+Print Assumptions C07_run_log_is_run_updates.
+
+(** every consensus state in the store is exactly (time, app hash, next-validators
+    hash) of the LAST header accepted for its height (or the initial state), its
+    stored processed time is the block time at which THAT header was processed
+    (a header replacing a stored height restarts the delay period), its iteration
+    key is present; every iteration key has its consensus state; and every logged
+    write other than the initial one is an accepted UpdateClient message of the
+    history *)
+Theorem C07_history_invariants :
+  forall valset_hash header_hash verify_sig ops cs cons now0,
+  valid_height (cs_latest cs) ->
+  let r := run_log valset_hash header_hash verify_sig (create_client [] cs cons now0) [init_event cs cons now0] ops in
+  recorded (fst r) (snd r) /\ iter_backed (fst r) /\
+  forall e, In e (snd r) -> e = init_event cs cons now0 \/ from_ops valset_hash header_hash verify_sig ops e.
+Proof.
+  intros vh hh vs ops cs cons now0 V r.
+  destruct (run_log_invariants vh hh vs ops _ _ (create_client_recorded cs cons now0 V) (create_client_iter_backed cs cons now0 V))
+    as (R & B & L).
+  split; [exact R|]. split; [exact B|]. intros e I. destruct (L e I) as [[E|[]]|F]; auto.
+Qed.
+Print Assumptions C07_history_invariants.
+
+(** ... hence, after ANY history, a proof is honoured only against a height not
+    above the latest, only against the app hash of the last header accepted for
+    that height, and only when the configured delay has passed since that very
+    header was processed ([u64] = the Go conversion uint64(UnixNano)) *)
+Theorem C07_verify_after_last_processing :
+  forall valset_hash header_hash verify_sig
+         (proof_decodes : bytes -> bool)
+         (membership_ok : client_state -> bytes -> bytes -> bool -> (bytes * bytes * N) -> bytes -> bool)
+         ops cs cons now0 cs' now h proof ack path val,
+  valid_height (cs_latest cs) -> valid_height h ->
+  let r := run_log valset_hash header_hash verify_sig (create_client [] cs cons now0) [init_event cs cons now0] ops in
+  client_of (fst r) = Some cs' -> (cs_delay cs' < two64N)%N ->
+  verify_packet proof_decodes membership_ok cs' (fst r) now h proof ack path val = Ok tt ->
+  h_lte h (cs_latest cs') = true /\
+  exists e pf, latest_event h (snd r) = Some e /\ proof = Some pf /\ proof_decodes pf = true /\
+    membership_ok cs' (c_root (ev_cons e)) pf ack path val = true /\
+    (u64 (ev_now e) + cs_delay cs' <= u64 now)%N.
+Proof.
+  intros vh hh vs pd mo ops cs cons now0 cs' now h proof ack path val V Vh r Hc Hd Hv.
+  destruct (run_log_invariants vh hh vs ops _ _ (create_client_recorded cs cons now0 V) (create_client_iter_backed cs cons now0 V))
+    as (R & _ & _).
+  eapply verify_after_last_processing; eauto.
+Qed.
+Print Assumptions C07_verify_after_last_processing.
+
+(** the pruning step of CheckHeaderAndUpdateState never fails after any history
+    (its "this error should never occur" branch is dead on reachable stores, so a
+    client is never wedged by it) *)
+Theorem C07_prune_never_fails :
+  forall valset_hash header_hash verify_sig ops cs cons now0 cs1 now,
+  valid_height (cs_latest cs) ->
+  exists p, prune_height cs1 (run_updates valset_hash header_hash verify_sig (create_client [] cs cons now0) ops) now = Ok p.
+Proof.
+  intros vh hh vs ops cs cons now0 cs1 now V.
+  destruct (run_log_invariants vh hh vs ops _ _ (create_client_recorded cs cons now0 V) (create_client_iter_backed cs cons now0 V))
+    as (_ & B & _).
+  rewrite run_log_fst in B.
+  destruct (create_client_wf cs cons now0 V) as [S W].
+  destruct (run_updates_preserves_wf vh hh vs ops _ S W) as [_ W'].
+  now apply prune_never_fails.
+Qed.
+Print Assumptions C07_prune_never_fails.
+
+(** the trace-history monitor (kinds 26/27: delay counted from the step of the trace
+    that last stored a header at the proof height; stored state = that header's)
+    accepts every proof the model honours after any history *)
+Theorem C07_monitor_sound_verify_history :
+  forall (proof_decodes : bytes -> bool)
+         (membership_ok : client_state -> bytes -> bytes -> bool -> (bytes * bytes * N) -> bytes -> bool)
+         tl rest s cs now h proof ack path val,
+  recorded s (tl ++ rest) -> valid_height h -> client_of s = Some cs -> (cs_delay cs < two64N)%N ->
+  0 <= now < two64 ->
+  verify_packet proof_decodes membership_ok cs s now h proof ack path val = Ok tt ->
+  mon_verify_hist tl s now h = [].
+Proof. exact mon_verify_hist_sound. Qed.
+Print Assumptions C07_monitor_sound_verify_history.
+
+(** * The model's store keys are the Go key builders (regenerated on every run by
+    tools/gotocoq/keys from host/keys.go and tendermint/types/store.go) *)
+Theorem C07_keys_are_the_go_key_builders :
+  (forall h, Fmt.render KeysGen.host_ConsensusStateKey (height_args h) = cons_key h) /\
+  (forall h, Fmt.render KeysGen.tm_ProcessedTimeKey (height_args h) = pt_key h) /\
+  (forall h, Fmt.render KeysGen.tm_IterationKey (height_args h) = iter_key h) /\
+  Fmt.render KeysGen.host_ClientStateKey [] = client_key /\
+  KeysGen.tm_KeyIterateConsensusStatePrefix = iter_prefix.
+Proof.
+  split; [exact cons_key_gen|]. split; [exact pt_key_gen|]. split; [exact iter_key_gen|].
+  split; [exact client_key_gen | reflexivity].
+Qed.
+Print Assumptions C07_keys_are_the_go_key_builders.
+
 (** Non-vacuity: a concrete client and a concrete header (two validators, toy
     oracles: the signature of a key is the key) that IS accepted, skipping from
     height 5 to height 9, and raises the latest height. *)
@@ -288,3 +427,23 @@ Example C07_nonvacuous :
              match client_of s' with Some cs' => cs_latest cs' = mkH 2 9 | None => False end.
 Proof. exact nonvacuous. Qed.
 Print Assumptions C07_nonvacuous.
+
+(** Non-vacuity of the history theorems: a concrete history (skip, adjacent update
+    pruning the expired initial state, a second header replacing height 10, proofs
+    refused one tick before and honoured at processed time + delay, everything
+    refused once the latest state is expired). *)
+Example C07_history_nonvacuous :
+  length (snd h2_result) = 4%nat /\
+  (match client_of (fst h2_result) with Some cs => cs_latest cs = mkH 2 10 | None => False end) /\
+  get_cons (fst h2_result) (mkH 2 5) = Err /\
+  get_cons (fst h2_result) (mkH 2 9) <> Err /\
+  get_cons (fst h2_result) (mkH 2 10) = Ok {| c_time := 1101; c_root := [x01; x02]; c_nvh := nv_valset_hash (nv_inp nv_own) |} /\
+  get_processed_time (fst h2_result) (mkH 2 10) = Some (Ok 1115%N) /\
+  h2_verify 1144 (mkH 2 10) = Err /\ h2_verify 1145 (mkH 2 10) = Ok tt /\ h2_verify 1144 (mkH 2 9) = Ok tt /\
+  h2_verify 5000 (mkH 2 11) = Err /\ h2_verify 5000 (mkH 2 5) = Err /\
+  update_client nv_valset_hash nv_header_hash nv_verify_sig (fst h2_result)
+    (nv_mk_header 11 2100 nv_own nv_own nv_own (mkH 2 10) [nv_sig x01 2100; nv_sig x03 2100]) 2101 = Err /\
+  (match update_client nv_valset_hash nv_header_hash nv_verify_sig (fst h2_result)
+    (nv_mk_header 11 2099 nv_own nv_own nv_own (mkH 2 10) [nv_sig x01 2099; nv_sig x03 2099]) 2100 with Ok _ => True | _ => False end).
+Proof. exact history_nonvacuous. Qed.
+Print Assumptions C07_history_nonvacuous.
